@@ -73,7 +73,7 @@ theorem poster_step_inv {s s1 : St} {i : Nat} {p' : Poster} (hI : Inv s)
         · intro hh; simp only [Option.some.injEq] at hh; exact absurd hh.symm hj
     · constructor
       · intro hh; exact absurd hh hnotL
-      · intro hh; simp at hh
+      · intro hh; cases hh
     · intro hne
       rcases hI.wake hne with h1 | ⟨j, hj⟩ | h3 | h4 | h5
       · exact Or.inl h1
@@ -103,8 +103,9 @@ theorem poster_step_inv {s s1 : St} {i : Nat} {p' : Poster} (hI : Inv s)
     · intro _
       refine Or.inr (Or.inl ⟨i, ?_⟩)
       simp [setPoster, sigP]
-    · show s.pending + 1 = ((s.posts ++ [(s.posters i).cur]).length : Int) + s.batch.length + _
-      rw [hI.pend]; simp only [List.length_append, List.length_singleton]; push_cast; omega
+    · show s.pending + 1 = ((s.posts ++ [(s.posters i).cur]).length : Int) + s.batch.length +
+        (if s.lpc = .inHandler ∨ s.lpc = .decrementing then 1 else 0)
+      rw [hI.pend, List.length_append, List.length_singleton]; push_cast; omega
   · -- appended → unlocked: releases the mutex
     have hhold : s.holder = some (some i) := (hI.mutexP i).1 (Or.inr hpc)
     have hnotL : ¬ (s.lpc = .swapping ∨ s.lpc = .unlocking ∨ (s.lpc = .inHandler ∧ holdsP s.nest)) := by
@@ -164,8 +165,9 @@ theorem nest_step_inv {s s1 : St} {p' : Poster} (hI : Inv s) (hl : s.lpc = .inHa
       · intro _; exact hhold
       · intro _; exact Or.inr (Or.inr ⟨hl, Or.inr rfl⟩)
     · intro _; exact Or.inr (Or.inr (Or.inl ⟨hl, Or.inl rfl⟩))
-    · show s.pending + 1 = ((s.posts ++ [s.nest.cur]).length : Int) + s.batch.length + _
-      rw [hI.pend]; simp only [List.length_append, List.length_singleton]; push_cast; omega
+    · show s.pending + 1 = ((s.posts ++ [s.nest.cur]).length : Int) + s.batch.length +
+        (if s.lpc = .inHandler ∨ s.lpc = .decrementing then 1 else 0)
+      rw [hI.pend, List.length_append, List.length_singleton]; push_cast; omega
   · refine ⟨hI.fifo, hI.batchEmpty, hI.swapEmpty, ?_, ?_, fun hne => absurd hl hne, ?_, hI.pend⟩
     · have hhold : s.holder = some none := hI.mutexL.1 (Or.inr (Or.inr ⟨hl, Or.inr hpc⟩))
       intro j; constructor
@@ -192,5 +194,183 @@ theorem nest_step_inv {s s1 : St} {p' : Poster} (hI : Inv s) (hl : s.lpc = .inHa
         · rw [hl] at h1; cases h1
         · simp [holdsP, hpc] at h1
     · intro _; exact Or.inl (Nat.succ_pos _)
+
+/-- Every step of every thread preserves the invariant. -/
+theorem step_inv (nested : H → List H) {s s' : St} (t : Option Nat) (hI : Inv s) (h : step nested s t = some s') : Inv s' := by
+  cases t with
+  | some i =>
+    simp only [step] at h
+    cases hp : posterStep s (some i) (s.posters i) with
+    | none => simp [hp] at h
+    | some r =>
+      obtain ⟨s1, p'⟩ := r
+      simp only [hp, Option.some.injEq] at h
+      subst h
+      exact poster_step_inv hI hp
+  | none =>
+    simp only [step] at h
+    cases hl : s.lpc with
+    | waiting =>
+      simp only [hl] at h
+      split at h
+      · cases h
+        refine ⟨hI.fifo, fun _ => hI.batchEmpty (Or.inl hl), (fun hu => by cases hu), hI.mutexP, ?_, (fun _ => hI.nestIdle (by rw [hl]; simp)), ?_, ?_⟩
+        · constructor
+          · intro hh; rcases hh with h1 | h1 | ⟨h1, _⟩ <;> cases h1
+          · intro hh; rcases hI.mutexL.2 hh with h1 | h1 | ⟨h1, _⟩ <;> rw [hl] at h1 <;> cases h1
+        · intro hne
+          rcases hI.wake hne with h1 | h2 | ⟨h3, _⟩ | h4 | h5
+          · exact Or.inl h1
+          · exact Or.inr (Or.inl h2)
+          · rw [hl] at h3; cases h3
+          · rw [hl] at h4; cases h4
+          · rw [hl] at h5; cases h5
+        · have := hI.pend; rw [hl] at this; simpa using this
+      · cases h
+    | draining =>
+      simp only [hl] at h
+      cases h
+      refine ⟨hI.fifo, fun _ => hI.batchEmpty (Or.inr (Or.inl hl)), (fun hu => by cases hu), hI.mutexP, ?_, (fun _ => hI.nestIdle (by rw [hl]; simp)), ?_, ?_⟩
+      · constructor
+        · intro hh; rcases hh with h1 | h1 | ⟨h1, _⟩ <;> cases h1
+        · intro hh; rcases hI.mutexL.2 hh with h1 | h1 | ⟨h1, _⟩ <;> rw [hl] at h1 <;> cases h1
+      · intro _; exact Or.inr (Or.inr (Or.inr (Or.inl rfl)))
+      · have := hI.pend; rw [hl] at this; simpa using this
+    | wantLock =>
+      simp only [hl] at h
+      split at h
+      · rename_i hfree
+        cases h
+        refine ⟨hI.fifo, fun _ => hI.batchEmpty (Or.inr (Or.inr (Or.inl hl))), (fun hu => by cases hu), ?_, ?_, (fun _ => hI.nestIdle (by rw [hl]; simp)), ?_, ?_⟩
+        · intro j; constructor
+          · intro hh; have := (hI.mutexP j).1 hh; rw [hfree] at this; cases this
+          · intro hh; cases hh
+        · constructor
+          · intro _; rfl
+          · intro _; exact Or.inl rfl
+        · intro _; exact Or.inr (Or.inr (Or.inr (Or.inr rfl)))
+        · have := hI.pend; rw [hl] at this; simpa using this
+      · cases h
+    | swapping =>
+      simp only [hl] at h
+      cases h
+      have hb := hI.batchEmpty (Or.inr (Or.inr (Or.inr hl)))
+      have hhold : s.holder = some none := hI.mutexL.1 (Or.inl hl)
+      refine ⟨?_, (fun hh => by rcases hh with h1 | h1 | h1 | h1 <;> cases h1), fun _ => rfl, hI.mutexP, ?_, (fun _ => hI.nestIdle (by rw [hl]; simp)), fun hne => absurd rfl hne, ?_⟩
+      · show s.executed ++ s.posts ++ [] = s.postedLog
+        rw [← hI.fifo, hb]; simp
+      · constructor
+        · intro _; exact hhold
+        · intro _; exact Or.inr (Or.inl rfl)
+      · have := hI.pend; rw [hl, hb] at this
+        show s.pending = (([] : List H).length : Int) + s.posts.length + _
+        simp at this ⊢; omega
+    | unlocking =>
+      simp only [hl] at h
+      cases h
+      have hp := hI.swapEmpty hl
+      refine ⟨hI.fifo, (fun hh => by rcases hh with h1 | h1 | h1 | h1 <;> cases h1), (fun hu => by cases hu), ?_, ?_, (fun _ => hI.nestIdle (by rw [hl]; simp)), fun hne => absurd hp hne, ?_⟩
+      · have hhold : s.holder = some none := hI.mutexL.1 (Or.inr (Or.inl hl))
+        intro j; constructor
+        · intro hh; have := (hI.mutexP j).1 hh; rw [hhold] at this; cases this
+        · intro hh; cases hh
+      · constructor
+        · intro hh; rcases hh with h1 | h1 | ⟨h1, _⟩ <;> cases h1
+        · intro hh; cases hh
+      · have := hI.pend; rw [hl] at this; simpa using this
+    | running =>
+      simp only [hl] at h
+      have hnotL : ¬ (s.lpc = .swapping ∨ s.lpc = .unlocking ∨ (s.lpc = .inHandler ∧ holdsP s.nest)) := by
+        rw [hl]; intro hh; rcases hh with h1 | h1 | ⟨h1, _⟩ <;> cases h1
+      split at h
+      · rename_i hb
+        cases h
+        refine ⟨hI.fifo, fun _ => hb, (fun hu => by cases hu), hI.mutexP, ?_, (fun _ => hI.nestIdle (by rw [hl]; simp)), ?_, ?_⟩
+        · constructor
+          · intro hh; rcases hh with h1 | h1 | ⟨h1, _⟩ <;> cases h1
+          · intro hh; exact absurd (hI.mutexL.2 hh) hnotL
+        · intro hne
+          rcases hI.wake hne with h1 | h2 | ⟨h3, _⟩ | h4 | h5
+          · exact Or.inl h1
+          · exact Or.inr (Or.inl h2)
+          · rw [hl] at h3; cases h3
+          · rw [hl] at h4; cases h4
+          · rw [hl] at h5; cases h5
+        · have := hI.pend; rw [hl] at this; simpa using this
+      · rename_i hd r hb
+        cases h
+        refine ⟨?_, (fun hh => by rcases hh with h1 | h1 | h1 | h1 <;> cases h1), (fun hu => by cases hu), hI.mutexP, ?_, fun hne => absurd rfl hne, ?_, ?_⟩
+        · show (s.executed ++ [hd]) ++ r ++ s.posts = s.postedLog
+          rw [← hI.fifo, hb]; simp
+        · constructor
+          · intro hh
+            rcases hh with h1 | h1 | ⟨_, h1⟩
+            · cases h1
+            · cases h1
+            · simp [holdsP] at h1
+          · intro hh; exact absurd (hI.mutexL.2 hh) hnotL
+        · intro hne
+          rcases hI.wake hne with h1 | h2 | ⟨h3, _⟩ | h4 | h5
+          · exact Or.inl h1
+          · exact Or.inr (Or.inl h2)
+          · rw [hl] at h3; cases h3
+          · rw [hl] at h4; cases h4
+          · rw [hl] at h5; cases h5
+        · have := hI.pend; rw [hl, hb] at this
+          show s.pending = (s.posts.length : Int) + r.length + _
+          simp at this ⊢; omega
+    | inHandler =>
+      simp only [hl] at h
+      split at h
+      · rename_i hdone
+        cases h
+        have hnh : ¬ holdsP s.nest := by simp [holdsP, hdone.2]
+        refine ⟨hI.fifo, (fun hh => by rcases hh with h1 | h1 | h1 | h1 <;> cases h1), (fun hu => by cases hu), hI.mutexP, ?_, fun _ => hdone.2, ?_, ?_⟩
+        · constructor
+          · intro hh; rcases hh with h1 | h1 | ⟨h1, _⟩ <;> cases h1
+          · intro hh
+            rcases hI.mutexL.2 hh with h1 | h1 | ⟨_, h1⟩
+            · rw [hl] at h1; cases h1
+            · rw [hl] at h1; cases h1
+            · exact absurd h1 hnh
+        · intro hne
+          rcases hI.wake hne with h1 | h2 | ⟨_, h3⟩ | h4 | h5
+          · exact Or.inl h1
+          · exact Or.inr (Or.inl h2)
+          · simp [sigP, hdone.2] at h3
+          · rw [hl] at h4; cases h4
+          · rw [hl] at h5; cases h5
+        · have := hI.pend; rw [hl] at this; simpa using this
+      · cases hp : posterStep s none s.nest with
+        | none => simp [hp] at h
+        | some r =>
+          obtain ⟨s1, p'⟩ := r
+          simp only [hp, Option.some.injEq] at h
+          subst h
+          exact nest_step_inv hI hl hp
+    | decrementing =>
+      simp only [hl] at h
+      cases h
+      have hnotL : ¬ (s.lpc = .swapping ∨ s.lpc = .unlocking ∨ (s.lpc = .inHandler ∧ holdsP s.nest)) := by
+        rw [hl]; intro hh; rcases hh with h1 | h1 | ⟨h1, _⟩ <;> cases h1
+      refine ⟨hI.fifo, (fun hh => by rcases hh with h1 | h1 | h1 | h1 <;> cases h1), (fun hu => by cases hu), hI.mutexP, ?_, (fun _ => hI.nestIdle (by rw [hl]; simp)), ?_, ?_⟩
+      · constructor
+        · intro hh; rcases hh with h1 | h1 | ⟨h1, _⟩ <;> cases h1
+        · intro hh; exact absurd (hI.mutexL.2 hh) hnotL
+      · intro hne
+        rcases hI.wake hne with h1 | h2 | ⟨h3, _⟩ | h4 | h5
+        · exact Or.inl h1
+        · exact Or.inr (Or.inl h2)
+        · rw [hl] at h3; cases h3
+        · rw [hl] at h4; cases h4
+        · rw [hl] at h5; cases h5
+      · have := hI.pend; rw [hl] at this
+        show s.pending - 1 = (s.posts.length : Int) + s.batch.length + _
+        simp at this ⊢; omega
+
+theorem reach_inv {nested : H → List H} {progs : Nat → List H} {s : St} (h : Reach nested progs s) : Inv s := by
+  induction h with
+  | init => exact init_inv progs
+  | step t _ hs ih => exact step_inv nested t ih hs
 
 end Sonic.Model.Post
